@@ -36,4 +36,21 @@ More == <<
   [t |-> "OwnedArray<int>", v |-> <<>>] >>
 
 Full == Core \o Wrappers \o More
+
+\* what a pre-populated destination holds: longer than (LongPre) / as short as possible but not empty
+\* (ShortPre) compared with every value of its type in the universes
+LongPre(T) ==
+  CASE T = "str" -> "zzzzzzzz"
+    [] T = "vi"  -> <<7, 7, 7, 7, 7>>
+    [] T = "vb"  -> <<7, 7, 7, 7, 7>>
+    [] T = "vs"  -> <<"qq", "qq", "qq", "qq">>
+    [] T = "vvi" -> << <<9, 9>>, <<9, 9>>, <<9, 9>> >>
+    [] OTHER     -> 0
+ShortPre(T) ==
+  CASE T = "str" -> "z"
+    [] T = "vi"  -> <<7>>
+    [] T = "vb"  -> <<7>>
+    [] T = "vs"  -> <<"qq">>
+    [] T = "vvi" -> << <<9, 9>> >>
+    [] OTHER     -> 0
 ===============================================================================
